@@ -3,7 +3,7 @@
    Model: Jssp/Instance.v (constructors), Jssp/Valid.v (is_valid / makespan / valid_schedule + the spec).
    Hypotheses: wf_instance (the object passed every constructor), result_ok (the result constructor accepted the
    schedule), keys_nodup (the schedule is a dict), at least one job (otherwise no latest end time exists). *)
-From QV Require Import Jssp.Valid Jssp.Valid_proofs.
+From QV Require Import Jssp.Valid Jssp.Valid_proofs Jssp.ResultObj Jssp.ResultObj_proofs.
 Open Scope string_scope.
 
 (* The verdict computed neighbour-wise over start-time-sorted machine lists is the pairwise JSSP definition:
@@ -47,6 +47,14 @@ Theorem C19_accessor : forall i s,
   (~ valid_spec i s -> valid_schedule_impl i s = Err JSSPException).
 Proof. exact valid_schedule_impl_spec. Qed.
 Print Assumptions C19_accessor.
+
+(* The result object caches its verdict and makespan. Reading is_valid / makespan / valid_schedule in ANY order and
+   any number of times on one object gives what the cache-free functions above give. *)
+Theorem C19_query_sequences : forall i s qs,
+  wf_instance i = true -> result_ok i s = true -> keys_nodup s -> inst_jobs i <> [] ->
+  run_queries i s cache0 qs = mapM (pure_answer i s) qs.
+Proof. exact result_object_sequences. Qed.
+Print Assumptions C19_query_sequences.
 
 (* constructors accept exactly the documented well-formedness rules *)
 Theorem C19_wellformed_machine : forall n, machine_ok n = true <-> n <> "".
